@@ -540,8 +540,13 @@ def run_behaviour(ctx, hist, variant, vseed):
         elif op in ("edit_derived", "edit_source"):
             target = derived if op == "edit_derived" else motl
             kind = st["op"]["kind"]
+            edited_df = target.df                # the table object this step edits in place, on purpose
             _, err = core.call_guarded((lambda: target.renumber_particles()) if kind == "renumber" else
                                        (lambda: target.fill({"class": 5})))
+            # the persistence expectation follows a deliberate edit: if the edited table is one an earlier load handed
+            # out (the loaded list was adopted as the list at hand), its snapshot is refreshed; every other held
+            # result must still be what it was
+            held = [(n, df, df.copy(deep=True) if df is edited_df else snap) for n, df, snap in held]
             sig["kind"] = kind
             if err is not None:
                 ctx.fail("call_raises", "step %d %s (%s): %s" % (i, op, kind, err), case, sig)
